@@ -2598,6 +2598,10 @@ func (c *compiler) VisitForRangeStmt(s *ast.ForRangeStmt) ast.VisitResult {
 
 	temp := c.NewAlloca(inTyp.IrType())
 	c.claimOrCopy(temp, in, inTyp, isTempIn)
+	// free the remaining temporaries of the evaluation of s.In right now:
+	// they live in the scope of the loop, which is also left (and freed) by every continue
+	c.freeTemporaries(c.scp, false)
+	c.scp.temporaries = c.scp.temporaries[:0]
 	in, _ = c.scp.addTemporary(temp, inTyp)
 	c.scp.protectTemporary(in)
 
